@@ -125,6 +125,14 @@ CHECKS.update({
          True),
 })
 
+CHECKS.update({
+ "C19": ("enum", "exploration",
+         "bounded-exhaustive CLI enumeration of streams over the full word / header alphabet x views x styles x filters; every printed row parsed back and compared with the model's decode of the bytes at that offset",
+         "Alphabet streams: 8 RDH variants (versions 6/7, stop 0/1, 7 layer/stave pairs incl. 47 and layer 6, link ids up to 15, 8 trigger kinds incl. SOC/SOT/HB/PhT/other/all-ones, 8 detector-field patterns incl. each lane-status bit and bits 24-26, orbit / BC extremes) and words: IHW, all 32 TDH combinations of trigger kind x internal x no-data x continuation, 24 TDT and 12 DDW0 lane-fault patterns (none / warning / error / fatal at lanes 0, 13, 27 and mixed), CDW, 9 data-word ids; x data formats 0 and 2 x value variants x {view rdh, its-readout-frames, its-readout-frames-data} x {no filter, link, FEE, layer-stave} x {-d, styled}. One row per RDH / status word (/ data word) in order; offset, word type, quoted bytes and every decoded attribute (trigger kind, Cont., No data / Data!, Complete / Split, lane faults, link, stave, orbit_BC, all view rdh columns) equal the model's decode; styled output with ANSI sequences stripped has the same tokens; on the 6 conforming witnesses the word types shown equal the ground-truth classification.",
+         "Spacing is normalised; colours are not judged. Payloads whose second word begins with six zero bytes are the known finding of C12 and are not placed in these streams.",
+         True),
+})
+
 NOT_YET = {
 }
 
